@@ -20,7 +20,7 @@ package datastore
 
 //@ func repoT.newMutationID
 //@   lockset
-//@   prop C12
+//@   prop C12 C11
 //@   requires r != nil && r.mutCurID < r.mutSavedID && r.mutSavedID <= 0xFFFFFFFFFFFFFF00
 //@   requires manager != nil && manager.store != nil && !manager.readOnly
 //@   modifies r.mutCurID, r.mutSavedID
@@ -33,7 +33,7 @@ package datastore
 
 //@ func repoT.initMutationID
 //@   lockset
-//@   prop C12 C03
+//@   prop C12 C03 C11
 //@   requires r != nil && store != nil && mutationIDStart <= 0xFFFFFFFFFFFF0000
 //@   modifies r.mutCurID, r.mutSavedID
 //@   ghost persisted uint64 = 0
@@ -102,7 +102,7 @@ package datastore
 
 //@ func repoManager.newInstanceID
 //@   lockset
-//@   prop C12 C06
+//@   prop C12 C06 C11
 //@   requires m != nil && (m.readOnly || m.store != nil)
 //@   modifies m.instanceID, ghost pRepo, ghost pVer, ghost pInst
 //@   ghost pRepo dvid.RepoID = arbitrary()
@@ -117,7 +117,7 @@ package datastore
 
 //@ func repoManager.newRepoID
 //@   lockset
-//@   prop C12
+//@   prop C12 C11
 //@   requires m != nil && (m.readOnly || m.store != nil)
 //@   modifies m.repoID, ghost pRepo, ghost pVer, ghost pInst
 //@   ghost pRepo dvid.RepoID = arbitrary()
@@ -128,7 +128,7 @@ package datastore
 
 //@ func repoManager.newUUID
 //@   lockset
-//@   prop C12 C07
+//@   prop C12 C07 C11
 //@   requires m != nil && (m.readOnly || m.store != nil) && m.versionToUUID != nil && m.uuidToVersion != nil
 //@   modifies m.versionID, m.versionToUUID[*], m.uuidToVersion[*], ghost pRepo, ghost pVer, ghost pInst
 //@   ghost pRepo dvid.RepoID = arbitrary()
@@ -142,7 +142,7 @@ package datastore
 
 //@ func repoManager.newVersionID
 //@   lockset
-//@   prop C12 C07
+//@   prop C12 C07 C11
 //@   requires m != nil && (m.readOnly || m.store != nil) && m.versionToUUID != nil && m.uuidToVersion != nil
 //@   modifies m.versionID, m.versionToUUID[*], m.uuidToVersion[*], ghost pRepo, ghost pVer, ghost pInst
 //@   ghost pRepo dvid.RepoID = arbitrary()
@@ -201,7 +201,7 @@ package datastore
 
 //@ func repoManager.newRepo
 //@   lockset
-//@   prop C07 C04
+//@   prop C07 C04 C11
 //@   safety_off
 //@   calls_havoc
 //@   requires m != nil
@@ -216,7 +216,7 @@ package datastore
 //@ func repoManager.newVersion
 //@   lockset
 //@   unguarded child
-//@   prop C07
+//@   prop C07 C11
 //@   safety_off
 //@   calls_havoc
 //@   requires m != nil
@@ -230,7 +230,7 @@ package datastore
 //@ func repoManager.merge
 //@   lockset
 //@   unguarded child
-//@   prop C07
+//@   prop C07 C11
 //@   safety_off
 //@   calls_havoc
 //@   requires m != nil
@@ -243,7 +243,7 @@ package datastore
 // locked flag) to the metadata store (C03: the flag survives a restart).
 //@ func repoManager.commit
 //@   lockset
-//@   prop C07 C03
+//@   prop C07 C03 C11
 //@   safety_off
 //@   calls_havoc
 //@   requires m != nil
